@@ -1,3 +1,5 @@
+// (TSan build: -O0 so that no access of the C++ abstract machine is optimised away, e.g. the size++/size--
+//  pair of a same-list std::list::splice)
 // Multi-threaded driver for C06 / C07 (DESIGN.md section 4.6), on the real containers with thread_safe::yes.
 //
 //   conc tsan <kind> <iters>            every ordered pair of public methods hammered by two threads on one
@@ -62,6 +64,10 @@ static std::unique_ptr<IC> make(const Cfg& g)
     std::exit(2);
 }
 
+// keeps the result of an observer alive so that the optimiser cannot drop its (possibly unlocked) reads;
+// no shared variable is involved, so no synchronisation is added between the threads
+template<class T> static inline void keep(T v) { asm volatile("" : : "r"(v) : "memory"); }
+
 struct Meth
 {
     const char*                          name;
@@ -79,9 +85,9 @@ static std::vector<Meth> methods(const std::string& k)
     m.push_back({"find", [](IC& c, unsigned i) { c.find(i % 5, false); }});
     m.push_back({"find_range", [](IC& c, unsigned i) { c.find_range({i % 5, (i + 1) % 5}, false, 0); }});
     m.push_back({"find_range_fill", [](IC& c, unsigned i) { c.find_range({i % 5, (i + 1) % 5}, false, 1); }});
-    m.push_back({"size", [](IC& c, unsigned) { (void)c.size(); }});
-    m.push_back({"empty", [](IC& c, unsigned) { (void)c.empty(); }});
-    if (k != "utmap" && k != "utset") m.push_back({"capacity", [](IC& c, unsigned) { (void)c.capacity(); }});
+    m.push_back({"size", [](IC& c, unsigned) { keep(c.size()); }});
+    m.push_back({"empty", [](IC& c, unsigned) { keep((int)c.empty()); }});
+    if (k != "utmap" && k != "utset") m.push_back({"capacity", [](IC& c, unsigned) { keep(c.capacity()); }});
     if (k == "fifo")
     {
         m.push_back({"insert_iter", [=](IC& c, unsigned i) { c.insert_range({{i % 5, i, 0}, {(i + 1) % 5, i, 0}}, 3, true); }});
@@ -155,6 +161,12 @@ static std::string gen_op(std::mt19937& r, const Cfg& g, int tid, int i, const s
         // thread 0 keeps evicting (fresh keys into a full cache), the others observe
         if (tid == 0) return "ins " + std::to_string(100 + i) + " " + val() + " iu 50";
         return (r() % 2) ? std::string("size") : std::string("empty");
+    }
+    if (scenario == "bigclean")
+    {
+        // 200 expired entries are pending; thread 0 reaps them in one call, the others watch size()
+        if (tid == 0) return i == 0 ? std::string("clean") : std::string("size");
+        return "size";
     }
     if (scenario == "bigrange")
     {
@@ -274,6 +286,12 @@ static int run_hist(const std::string& kind, unsigned seed, int n, int threads, 
             for (size_t i = 0; i < g.cap; ++i) c->insert(i, i, 3, 50);
         if (scenario == "bigrange")
             for (size_t i = 0; i < 200; ++i) c->insert(i, 7, 3, 50);
+        int64_t t_fill = g_now;
+        if (scenario == "bigclean")
+        {
+            for (size_t i = 0; i < 200; ++i) c->insert(i, 7, 3, 50);
+            g_now += 60 * 1000000; // past every deadline (ttl 50 ms)
+        }
         std::vector<std::vector<HRec>> recs(threads);
         std::atomic<int>               go{0};
         g_stamp = 100000;
@@ -303,6 +321,9 @@ static int run_hist(const std::string& kind, unsigned seed, int n, int threads, 
         if (scenario == "bigrange")
             for (size_t i = 0; i < 200; ++i)
                 std::printf("h 99 %zu %zu %ld ins %zu 7 iu 50 => b1\n", 2 * i + 1, 2 * i + 2, (long)g_now, i);
+        if (scenario == "bigclean")
+            for (size_t i = 0; i < 200; ++i)
+                std::printf("h 99 %zu %zu %ld ins %zu %d iu 50 => b1\n", 2 * i + 1, 2 * i + 2, (long)t_fill, i, kind == "utset" ? 1 : 7);
         for (auto& v : recs)
             for (auto& r : v)
                 std::printf("h %d %lu %lu %ld %s => %s\n", r.tid, (unsigned long)r.inv, (unsigned long)r.res, (long)g_now, r.op.c_str(), r.out.c_str());
